@@ -52,7 +52,7 @@ PROPS = {
         "text": "no model read path reaches a panic outcome (proved for all inputs); hostile/mutated/truncated streams through the real readers under catch_unwind",
     },
     "C09": {
-        "lean": ["PnaVerif.Props.Consts", "PnaVerif.Props.C09", "PnaVerif.Props.C09Fs"],
+        "lean": ["PnaVerif.Props.Consts", "PnaVerif.Props.C09", "PnaVerif.Props.C09Fs", "PnaVerif.Props.C09Confined"],
         "families": ["codec", "extract-fs"],
         "cli": True,
         "ops": {"codec": ["name.sanitize", "fhed.dec", "fhed.reenc", "ref.normalize", "utf8"], "extract-fs": ["extract"]},
